@@ -38,6 +38,7 @@ THEOREMS = [
     "Typedpy.C12.derive_raises_iff",
     "Typedpy.C12.derive_flags_not_copied",
     "Typedpy.C12.flags_example",
+    "Typedpy.C12.fixed_inherited_default_not_required",
     "Typedpy.reachable_good",
     "Typedpy.reachable_hasStructure",
     "Typedpy.c12_derive_total",
